@@ -26,6 +26,7 @@ package stringy
 //@ func (sa SessionBasedAuthorizer) evaluate() (res []string, st tq.AuthorStatus)
 //@   requires sa.loggerProvider != nil
 //@   modifies ghost.scopeArg
+//@   after[C11] User.GetLocalizedScope : ghost.scopeArg = seqof(ret0)
 //@   loop 1 invariant -1 <= rangeindex && rangeindex < len(sa.user.Services)
 //@   loop 1 invariant[C11] len(args) >= 1 && seqof(args[len(args) - 1]) == ghost.scopeArg
 
